@@ -61,7 +61,7 @@ def fmtRoll (r : Roll) (retIdx : Bool) : String :=
 def fmtPc (r : Roll) (binary normalize retIdx : Bool) : String :=
   let colsN := r.cols.toNat
   let cols := (List.range colsN).map fun (j : Nat) =>
-    fmtList fmtRat ((List.range 12).map fun (c : Nat) => pcOut r binary normalize (c : Int) (j : Int))
+    fmtList fmtRat (pcColumn r binary normalize (j : Int))
   let idx := if retIdx then fmtList (fun (a, b, c, d) => fmtList fmtInt [a, b, c, d]) r.idx else "[]"
   "[" ++ fmtInt r.cols ++ "," ++ "[" ++ ",".intercalate cols ++ "]," ++ idx ++ "]"
 
